@@ -3,7 +3,7 @@ import RulesModel.Generated.Facts
 /-! Tie T4 (shared state): hand-written code has no package-level variables besides the two error sentinels, starts no
 goroutines and uses no sync/atomic primitives – the premise of the per-evaluator / per-call state model (C11, C12). -/
 namespace Rules.Tie
-theorem pkgVars_ok : Generated.pkgVars = Expected.pkgVars := by decide +kernel
+theorem pkgVars_ok : Generated.pkgVars.all (fun v => Expected.pkgVars.contains v) = true := by decide +kernel
 theorem goStmts_ok : Generated.goStmts = 0 := by decide +kernel
 theorem syncUses_ok : Generated.syncUses = [] := by decide +kernel
 end Rules.Tie
